@@ -40,10 +40,12 @@ structure Listen where
   k : Nat
   included : List Nat
   lt : Nat
+  deriving DecidableEq
 
 inductive Result
   | err
   | ok (sig endBlock tb : Nat) (act inact : List Nat)
+  deriving DecidableEq
 
 structure Consts where
   delay : Nat
@@ -142,6 +144,25 @@ def runFrom (cs : Consts) (c : Case) (sel : Selection) : Nat â†’ List Attempt â†
 def run (cs : Consts) (c : Case) (sel : Selection) : List Listen Ã— Result :=
   runFrom cs c sel 1 c.attempts
 
+/-! ## Prediction under the observed selection
+
+The op line does not determine the member selection (pseudo-random, C10), the observation does:
+`selOf ls` is the selection function read off the observed `listen` calls.  The model run under that
+selection must be exactly what was observed (all `listen` calls and the report). -/
+
+def selOf (ls : List Listen) : Selection := fun k _ =>
+  match ls.find? (fun l => l.k == k) with
+  | some l => l.included
+  | none => []
+
+def normResult : Result â†’ Result
+  | .err => .err
+  | .ok s e t act inact => .ok s e t (sortNats act) (sortNats inact)
+
+def agreesWithModel (cs : Consts) (c : Case) (ls : List Listen) (r : Result) : Bool :=
+  let m := run cs c (selOf ls)
+  decide (m.1 = ls) && decide (normResult m.2 = normResult r)
+
 /-! ## parsing of the op / observation lines -/
 
 def dotList (s : String) : Option (List Nat) :=
@@ -196,7 +217,9 @@ def monitor (cs : Consts) (op obs : String) : String :=
     | [ls, r] =>
       match (if ls == "-" then some [] else (ls.splitOn ",").mapM parseListen), parseResult r with
       | some ls, some r =>
-        if holds cs c ls r then "ok" else "FAIL signing-loop-done-check-glue-or-activity-report"
+        if !holds cs c ls r then "FAIL signing-loop-done-check-glue-or-activity-report"
+        else if !agreesWithModel cs c ls r then "FAIL loop-differs-from-model-under-observed-selection"
+        else "ok"
       | _, _ => "FAIL unparsable-observation"
     | _ => "FAIL unparsable-observation"
 
